@@ -224,6 +224,29 @@ RetFormProg(ks, via, form) ==
      \o <<PrintS([i \in 1..k |-> Var(TName(i))])>>
 RetFormCases == {CaseOf("C02/retform/" \o KStr(ks, 1) \o (IF via THEN "/via/" ELSE "/direct/") \o form, RetFormProg(ks, via, form))
                  : ks \in ([1..2 -> RetKinds] \cup [1..3 -> RetKinds]), via \in BOOLEAN, form \in {"def", "asg"}}
-All == RetFormCases \cup LoopCallCases \cup RoleCases \cup ArityCases \cup GlobalCases \cup SwapCases \cup NestCases \cup MultiCallCases
+\* ---- one name defined in several blocks of a callee, some of which are not entered at run time, while a variable of the same name is alive outside
+\* (round 9: `local` declared where the FIRST definition is emitted; when that block is skipped a later plain assignment walks Bash's dynamic scope chain)
+\* callee shape x which path the call takes x who owns the outer variable (caller's local, caller's parameter, a global defined after the callee,
+\* a top-level variable defined before the call) x the outer variable is read after the call
+BDShapes == {"ifthen", "ifelse", "loop0", "switch", "nested", "twoifs"}
+BDCallee(sh) ==
+  LET D(v) == Def1("t", v)  R == RetS(<<Var("t")>>) IN
+  Func("pick", <<Param("n", "int")>>, <<"int">>,
+    CASE sh = "ifthen" -> <<If1(CmpE(">", Var("n"), NatLit(10)), <<D(Bin("*", Var("n"), NatLit(2))), R>>), D(Bin("+", Var("n"), NatLit(1))), R>>
+      [] sh = "ifelse" -> <<IfElse(CmpE(">", Var("n"), NatLit(10)), <<D(Bin("*", Var("n"), NatLit(2))), PV("big", <<"t">>)>>, <<D(Bin("+", Var("n"), NatLit(1))), PV("small", <<"t">>)>>), RetS(<<Var("n")>>)>>
+      [] sh = "loop0"  -> <<For3(Def1("i", NatLit(10)), CmpE("<", Var("i"), Var("n")), Inc("i"), <<D(Var("i")), PV("in", <<"t">>)>>), D(Bin("+", Var("n"), NatLit(1))), R>>
+      [] sh = "switch" -> <<Switch(Var("n"), <<CaseB(NatLit(20), <<D(NatLit(7)), PV("case", <<"t">>)>>)>>, <<D(NatLit(8)), PV("default", <<"t">>)>>, TRUE), D(Bin("+", Var("n"), NatLit(1))), R>>
+      [] sh = "nested" -> <<If1(CmpE(">", Var("n"), NatLit(0)), <<If1(CmpE(">", Var("n"), NatLit(10)), <<D(NatLit(5)), PV("deep", <<"t">>)>>), D(Bin("+", Var("n"), NatLit(1))), PV("mid", <<"t">>)>>), RetS(<<Var("n")>>)>>
+      [] sh = "twoifs" -> <<If1(CmpE(">", Var("n"), NatLit(10)), <<D(NatLit(1)), PV("first", <<"t">>)>>), If1(CmpE("<", Var("n"), NatLit(30)), <<D(NatLit(2)), PV("second", <<"t">>)>>), RetS(<<Var("n")>>)>>)
+BDOwners == {"callerlocal", "callerparam", "globalafter", "toplevel", "callerloop"}
+BDProg(sh, ow, n) ==
+  LET call == CallE("pick", <<NatLit(n)>>) IN
+  CASE ow = "callerlocal" -> <<BDCallee(sh), Func("caller", <<>>, <<"int">>, <<Def1("t", NatLit(100)), Def1("r", call), PV("caller", <<"t", "r">>), RetS(<<Bin("+", Var("t"), Var("r"))>>)>>), Print1(CallE("caller", <<>>))>>
+    [] ow = "callerparam" -> <<BDCallee(sh), Func("caller", <<Param("t", "int")>>, <<"int">>, <<Def1("r", call), RetS(<<Bin("+", Var("t"), Var("r"))>>)>>), Print1(CallE("caller", <<NatLit(100)>>))>>
+    [] ow = "globalafter" -> <<BDCallee(sh), Def1("t", NatLit(100)), Def1("r", call), PV("top", <<"t", "r">>)>>
+    [] ow = "toplevel"    -> <<BDCallee(sh), Def1("r", call), Def1("t", NatLit(100)), Asg1("r", Bin("+", Var("r"), call)), PV("top", <<"t", "r">>)>>
+    [] ow = "callerloop"  -> <<BDCallee(sh), Func("caller", <<>>, <<>>, <<For3(Def1("t", NatLit(0)), CmpE("<", Var("t"), NatLit(2)), Inc("t"), <<PrintS(<<StrL("loop"), Var("t"), call>>)>>)>>), ExprS(CallE("caller", <<>>))>>
+BlockDefCases == {CaseOf("C02/blockdef/" \o sh \o "/" \o ow \o "/" \o ToString(n), BDProg(sh, ow, n)) : sh \in BDShapes, ow \in BDOwners, n \in {1, 20, 40}}
+All == BlockDefCases \cup RetFormCases \cup LoopCallCases \cup RoleCases \cup ArityCases \cup GlobalCases \cup SwapCases \cup NestCases \cup MultiCallCases
 ASSUME ndJsonSerialize("fam.ndjson", SetToSeq(All))
 =============================================================================
